@@ -113,8 +113,10 @@ def gen_program(rng, lang=None, max_entities=10):
                 _gen_record(prog, rng, idx, "union")
             elif r < 85:
                 _gen_typedef(prog, rng, idx)
-            elif r < 93:
+            elif r < 91:
                 _gen_function(prog, rng, idx)
+            elif r < 96:
+                _gen_var(prog, rng, idx)
             else:
                 _gen_enum(prog, rng, idx)
         else:
@@ -128,8 +130,10 @@ def gen_program(rng, lang=None, max_entities=10):
                 _gen_typedef(prog, rng, idx)
             elif r < 86:
                 _gen_alias_template(prog, rng, idx)
-            elif r < 94:
+            elif r < 92:
                 _gen_function(prog, rng, idx)
+            elif r < 96:
+                _gen_var(prog, rng, idx)
             else:
                 _gen_enum(prog, rng, idx)
     _gen_flags(prog, rng)
@@ -328,6 +332,24 @@ def _gen_function(prog, rng, idx):
         soft.add(t)
         ret = f"{prog.spell(t)}*"
     prog.add(Entity(name, "function", f"{ret} {name}({', '.join(params) or 'void'});", hard, soft))
+
+
+def _gen_var(prog, rng, idx):
+    """A non-defining variable declaration: the one place where a type may be
+    met by the parser before (or after) its definition at top level."""
+    name = f"g{idx}"
+    recs = prog.names(("struct", "union", "typedef", "inst_typedef"))
+    if recs and rng.chance(750):
+        t = rng.pick(recs)
+        form = rng.below(3)
+        if form == 0:
+            prog.add(Entity(name, "var", f"extern {prog.spell(t)} {name};", soft={t}))
+        elif form == 1:
+            prog.add(Entity(name, "var", f"extern {prog.spell(t)}* {name};", soft={t}))
+        else:
+            prog.add(Entity(name, "var", f"extern {prog.spell(t)} {name}[];", soft={t}))
+    else:
+        prog.add(Entity(name, "var", f"extern const {rng.pick(C_PRIMS)} {name};"))
 
 
 def _gen_enum(prog, rng, idx):
